@@ -21,7 +21,7 @@ CLAIM = ("The filter's loop body, evaluated on every single token (type x preser
          "/ selected triples of adjacent text tokens and text around a tag, passes every non-text token on exactly once, in order and "
          "unchanged, and writes between them exactly the text with each maximal white-space run -- also one split over adjacent "
          "tokens -- collapsed to one space (unchanged inside preserved elements); the preserve depth evolves as specified; the "
-         "collapsing pattern is a +-repetition of exactly the five HTML white-space characters replaced by one space.")
+         "collapsing pattern is a +-repetition of exactly the five HTML white-space characters replaced by one space. A white-space run ends at the tags of a preserving element as at any other token.")
 NOT_DECIDED = "streams longer than three tokens are covered by the loop state being (preserve depth, run-in-progress flag) only; unbalanced streams."
 MODULES = ["filters/whitespace.py", "filters/base.py", "constants.py"]
 REL = "filters/whitespace.py"
